@@ -5,7 +5,7 @@ CFG = {'level': 'exploration',
  'technique': 'runtime monitoring: SetRequire / SetRequireSeparateIndirect / SetUse + Cleanup on generated starting files; oracle = exact-set '
               'postcondition on the strict re-parse and on the Require/Use list, own block-order comparators (ref/refmodfile), tag lookup for the '
               'comments of kept lines, statement-level separation of direct and indirect requirements on qualifying files',
- 'level_text': '3e4 (quick) / 1e6 (thorough) cases per setter, each 1..3 rounds of parse, [Cleanup,] Set*, Cleanup, Format, strict re-parse (the '
+ 'level_text': '9e4 (quick) / 1e6 (thorough) cases per setter, each 1..3 rounds of parse, [Cleanup,] Set*, Cleanup, Format, strict re-parse (the '
                'output of a round is the next starting file): starting files with duplicated paths, several require/use blocks and single lines, '
                'commented blocks, tagged comments, exclude/retract blocks whose lexical and semantic orders differ, go directives on both sides of '
                '1.21, and a third of the go.mod files with one uncommented require line or block; requested lists of 0..8 distinct paths '
